@@ -29,7 +29,7 @@ func init() {
 		Directed:   c10Directed,
 		Run:        func(r *core.Run) { r.Tape.Int(1, "c04.flow"); logoutAdversarial(r, "C10") },
 		MustHit:    []string{"kind=LogoutRequest", "kind=LogoutResponse", "misroute", "signing=untrusted", "signing=tampered", "signing=wrapped-new-id", "signing=wrapped-same-id", "signing=relocated-signature", "signing=foreign-signature", "skip_config", "issuer_unconfigured", "compressed", "nonconforming_idp"},
-		RandomRuns: map[string]int{"quick": 1500, "thorough": 80000},
+		RandomRuns: map[string]int{"quick": 8000, "thorough": 80000},
 	})
 }
 
